@@ -90,6 +90,36 @@ fn pair(vm: &mut Vm<Aux>, a: Value, b: Value) -> NR {
     t.as_table_mut().unwrap().insert(Value::Integer(1), b)?;
     Ok(Value::Object(t.into_inner()))
 }
+fn wrap_n(vm: &mut Vm<Aux>, args: &[Value]) -> NR {
+    vm.auxiliary_data.native_calls += 1;
+    // the table is allocated first (a collection may run here); the arguments are used afterwards
+    let mut t = vm.init_table()?;
+    for (i, a) in args.iter().enumerate() {
+        t.as_table_mut().unwrap().insert(Value::Integer(i as i64), *a)?;
+    }
+    Ok(Value::Object(t.into_inner()))
+}
+fn wrap1(vm: &mut Vm<Aux>, a: Value) -> NR {
+    wrap_n(vm, &[a])
+}
+fn wrap3(vm: &mut Vm<Aux>, a: Value, b: Value, c: Value) -> NR {
+    wrap_n(vm, &[a, b, c])
+}
+fn wrap4(vm: &mut Vm<Aux>, a: Value, b: Value, c: Value, d: Value) -> NR {
+    wrap_n(vm, &[a, b, c, d])
+}
+fn keep1(vm: &mut Vm<Aux>, f: Value, x: Value) -> NR {
+    let r = reenter(vm, f, &[x])?;
+    // the callee's result lives only here: guard it while the table is allocated; the argument is just used
+    let _g = match r {
+        Value::Object(o) => Some(cao_lang::vm::runtime::cao_lang_object::ObjectGcGuard::new(o)),
+        _ => None,
+    };
+    let mut t = vm.init_table()?;
+    t.as_table_mut().unwrap().insert(Value::Integer(0), r)?;
+    t.as_table_mut().unwrap().insert(Value::Integer(1), x)?;
+    Ok(Value::Object(t.into_inner()))
+}
 fn concat(vm: &mut Vm<Aux>, a: Value, b: Value) -> NR {
     vm.auxiliary_data.native_calls += 1;
     let s = format!("{}|{}", deep(a).short(), deep(b).short());
@@ -111,6 +141,10 @@ pub fn native_specs() -> HashMap<String, NativeSpec> {
     m.insert("apply2".to_string(), NativeSpec::Apply(2));
     m.insert("fail".to_string(), NativeSpec::Fail);
     m.insert("pair".to_string(), NativeSpec::Pair);
+    m.insert("wrap1".to_string(), NativeSpec::Wrap(1));
+    m.insert("wrap3".to_string(), NativeSpec::Wrap(3));
+    m.insert("wrap4".to_string(), NativeSpec::Wrap(4));
+    m.insert("keep1".to_string(), NativeSpec::Keep);
     m.insert("concat".to_string(), NativeSpec::Concat);
     m
 }
@@ -128,6 +162,10 @@ pub fn register_natives(vm: &mut Vm<Aux>) {
     vm.register_native_function("apply2", into_f3(apply2)).unwrap();
     vm.register_native_function("fail", fail).unwrap();
     vm.register_native_function("pair", into_f2(pair)).unwrap();
+    vm.register_native_function("wrap1", into_f1(wrap1)).unwrap();
+    vm.register_native_function("wrap3", into_f3(wrap3)).unwrap();
+    vm.register_native_function("wrap4", into_f4(wrap4)).unwrap();
+    vm.register_native_function("keep1", into_f2(keep1)).unwrap();
     vm.register_native_function("concat", into_f2(concat)).unwrap();
 }
 
